@@ -26,23 +26,27 @@ TEXT = {
    note='Correct nodes run a harness consensus strategy, application and timers; the network, Byzantine behaviour and crashes are simulated; a panic of an engine goroutine kills the worker and is classified by the runner (counted as aborted for properties other than C09). Runs are sampled, not enumerated.', ref='4/C03'),
  'C09': dict(
    technique='deterministic simulation: multi-node engine world (see C03) with crash = observation; worker exit status and silently dead component detection as oracles',
-   text='Seeded search over honest and faulty multi-node schedules; any panic of an engine goroutine, any silent exit of the state machine or mirror goroutine while the engine runs, and any failing tmengine.New is a violation. The many defects found on the unchanged tree are listed individually in known_findings.json (open) or fixed by fix: commits; the construction-options part (H-OPTS) and the single-node adversarial message part are added when present in harness.json.',
+   text='Seeded search over honest and faulty multi-node schedules; any panic of an engine goroutine, any silent exit of the state machine or mirror goroutine while the engine runs, and any failing tmengine.New is a violation. The many defects found on the unchanged tree are listed individually in known_findings.json (open) or fixed by fix: commits. Parts: honest and faulty multi-node worlds, the state machine alone against a simulated mirror, and one real engine against an omnipotent adversarial environment (malformed, forged, conflicting and replayed inputs, validator rotation); a handler that makes 300 kernel requests without returning counts as wedged. Construction options (H-OPTS) are not covered.',
    note='Correct nodes run a harness consensus strategy, application and timers; the network, Byzantine behaviour and crashes are simulated; a panic of an engine goroutine kills the worker and is classified by the runner (counted as aborted for properties other than C09). Runs are sampled, not enumerated.', ref='4/C09'),
  'C02': dict(
    technique='deterministic simulation: multi-node engine world with crash-restart on the same stores; recording signer wrapper as monitor',
-   text='Monitor level: across all runs and restarts the set of distinct sign bytes presented to each correct validator key per (kind, height, round) must have at most one element. The state-machine-level part (save precedes release, adversarial strategy answers) is added by the state machine harness when present in harness.json.',
+   text='Monitor level: across all runs and restarts the set of distinct sign bytes presented to each correct validator key per (kind, height, round) must have at most one element. The state-machine-level part adds adversarial strategy answers and checks that every signature is in the action store before it is released to the mirror; the crash enumeration of C10 restarts the validator inside rounds in which it has already voted.',
    note='Correct nodes run a harness consensus strategy, application and timers; the network, Byzantine behaviour and crashes are simulated; a panic of an engine goroutine kills the worker and is classified by the runner (counted as aborted for properties other than C09). Runs are sampled, not enumerated.', ref='4/C02'),
  'C04': dict(
    technique='deterministic simulation: multi-node engine world with crash-restart; shadow of every committed-header and mirror-store write',
    text='After every store write of every correct node: a committed height never changes hash, no gaps, each header names the stored predecessor hash, voting position monotone and one above committing.',
    note='Correct nodes run a harness consensus strategy, application and timers; the network, Byzantine behaviour and crashes are simulated; a panic of an engine goroutine kills the worker and is classified by the runner (counted as aborted for properties other than C09). Runs are sampled, not enumerated.', ref='4/C04'),
+ 'C10': dict(
+   technique='deterministic simulation with enumerated crash points: one real engine on recording store wrappers driven by a scripted honest history; process death after every store write (every write is a scheduling point), restart by tmengine.New on the same stores, peers resend; end state compared with the scripted chain',
+   text='Fault enumeration over the store-write positions of seeded scripted histories (a batch of consecutive seeds shares one script and walks the crash position through writes 1..72; 25% of the runs add a second crash during recovery), plus sampled crash/restart of correct nodes in the multi-node world. Oracles: New returns no error; positions recorded after the restart are not behind the durable ones; the first published views of the resumed rounds contain every stored proposal and vote (and they verify); no finalization is re-saved with other content; stored committed headers stay what was saved; once nothing is left to do the committed-header store equals the scripted chain and every decided height is finalized. Not exhaustive over schedules between writes (sampled) or over histories.',
+   note='The seven in-memory stores are the durable state (the store objects survive, everything else is dropped); crash = context cancellation + no further writes from the dead incarnation. Strategy, application and timers of the node are harness code; the peers are a scripted environment that resends the current round and regossips decided heights after a restart. Liveness is judged only at quiescence (nothing enabled), never by a step bound.', ref='4/C10'),
  'C11': dict(
    technique='deterministic simulation: multi-node engine world; every view is observed right after its consumer received it',
    text='Per consumer and height/round: versions strictly increase, proposals and votes only grow; checked on every view the state machine and the gossip strategy receive under seeded relative speeds of kernel, handlers and consumers.',
    note='Correct nodes run a harness consensus strategy, application and timers; the network, Byzantine behaviour and crashes are simulated; a panic of an engine goroutine kills the worker and is classified by the runner (counted as aborted for properties other than C09). Runs are sampled, not enumerated.', ref='4/C11'),
  'C05': dict(
    technique='deterministic simulation: multi-node engine world with frame corruption, replay and Byzantine-signed votes; independent crypto/ed25519 verification of every signature in views, round-store writes and gossip frames',
-   text='Oracle A (authenticity) as a monitor over everything correct nodes put into views, the round store and gossip. Oracle B (an all-invalid message is a no-op) is decided by the single-node adversarial harness when present in harness.json.',
+   text='Oracle A (authenticity) as a monitor over everything correct nodes put into views, the round store and gossip. Oracle B (a message whose signatures are all invalid, foreign, malformed or for another target is a no-op and is not reported as accepted) is decided by the single-node adversarial part, where the environment knows for every injected message what the engine may answer.',
    note='Correct nodes run a harness consensus strategy, application and timers; the network, Byzantine behaviour and crashes are simulated; a panic of an engine goroutine kills the worker and is classified by the runner (counted as aborted for properties other than C09). Runs are sampled, not enumerated.', ref='4/C05'),
  'C06': dict(
    technique='deterministic simulation: multi-node engine world with equivocating Byzantine validators; vote summaries recomputed independently in math/big for every observed view',
@@ -54,7 +58,7 @@ TEXT = {
    note='Correct nodes run a harness consensus strategy, application and timers; the network, Byzantine behaviour and crashes are simulated; a panic of an engine goroutine kills the worker and is classified by the runner (counted as aborted for properties other than C09). Runs are sampled, not enumerated.', ref='4/C07'),
  'C01': dict(
    technique='deterministic simulation: multi-node engine world; every commit event checked against an independently verified > 2/3 precommit certificate of the prescribed validator set',
-   text='Commit events (committed-header store writes, committing views, committed headers handed to the state machine, finalize requests) are checked with crypto/ed25519 and math/big against the validator set the chain prescribes. Byzantine power is < 1/3 in this harness; certificates forged by >= 2/3 foreign keys and replayed headers are exercised by the single-node adversarial harness when present in harness.json.',
+   text='Commit events (committed-header store writes, committing views, committed headers handed to the state machine, finalize requests) are checked with crypto/ed25519 and math/big against the validator set the chain prescribes. Byzantine power is < 1/3 in this harness; certificates by foreign key sets, conflicting certificates and replayed headers (genuine, foreign-key certified, foreign predecessor, weak, corrupted) are exercised by the single-node adversarial part.',
    note='Correct nodes run a harness consensus strategy, application and timers; the network, Byzantine behaviour and crashes are simulated; a panic of an engine goroutine kills the worker and is classified by the runner (counted as aborted for properties other than C09). Runs are sampled, not enumerated.', ref='4/C01'),
  'C08': dict(
    technique='deterministic simulation: the real round state machine alone on its channel interface, with the mirror, timers, consensus strategy and driver played by a seeded scheduler; trace checked against an executable reference of the round rules',
@@ -62,7 +66,7 @@ TEXT = {
    note='The simulated mirror is trusted to respect the contract in DESIGN.md (section 4/C08): truthful summaries, growing views, honest peers. Runs that end in a state machine panic are counted as aborted here and reported under C09.', ref='4/C08'),
  'C12': dict(
    technique='deterministic simulation: real StandardRoundTimer on a fake clock, seeded statement-level interleaving of its goroutine with a caller issuing start/cancel/restart sequences',
-   text='Part (b) of the property (production round timer): seeded search over caller scripts and over every interleaving point of the timer goroutine (selects with seeded pre-pass, yields between statements) on the synctest fake clock; oracle: no panic, cancelled never elapses, never early, every start returns, armed timers fire. Part (a) (state-machine timer discipline) is decided by the state-machine harness when present in harness.json.',
+   text='Part (b) of the property (production round timer): seeded search over caller scripts and over every interleaving point of the timer goroutine (selects with seeded pre-pass, yields between statements) on the synctest fake clock; oracle: no panic, cancelled never elapses, never early, every start returns, armed timers fire. Part (a) (state-machine timer discipline: at most one outstanding timer, none for a round that was left) is decided by the sm-timers part on the real state machine.',
    note='The caller respects its side of the contract (no start while a timer is outstanding). A panic of the timer goroutine kills the worker process and is classified by the runner.',
    ref='4/C12'),
  'C14': dict(
